@@ -11,8 +11,8 @@ import (
 	"encoding/json"
 	"fmt"
 	"os"
-	"runtime/pprof"
 	"sort"
+	"strconv"
 	"strings"
 	"time"
 
@@ -182,16 +182,16 @@ func scenariosB(quick bool) ([]ScB, []gosched.Bounds) {
 		return scs, bs
 	}
 	add(one2, 3, 3)
-	add(two, 2, 1)
-	add(two, 1, 2)
 	add(conc, 1, 1)
 	add(conc, 0, 2)
-	add(same, 2, 2)
-	add(sameB2B, 3, 2)
 	add(b2b, 1, 1)
+	add(two, 1, 2)
+	add(same, 2, 2)
 	add(apart, 1, 2)
+	add(sameB2B, 3, 2)
 	add(ScB{Name: "four-polls-two-keys-busy(S1,S2,S1,S2)", Clients: 1, Polls: []string{"S1", "S2", "S1", "S2"}, MaxTry: 2, Timeout: 2 * time.Second}, 0, 1)
 	add(ScB{Name: "two-polls-2-clients(S1,S2)", Clients: 2, Polls: []string{"S1", "S2"}, Sleep: true, MaxTry: 2, Timeout: 3 * time.Second}, 0, 1)
+	add(two, 2, 1)
 	return scs, bs
 }
 
@@ -205,6 +205,19 @@ var requiredA = []string{
 var requiredB = []string{
 	"b:all-succeeded", "b:some-submission-failed-for-good", "b:two-submissions-concurrently", "b:poll-skipped-in-flight-signal", "b:retried",
 	"b:tx-never-found", "b:tx-out-of-gas", "b:broadcast-out-of-gas", "b:broadcast-error", "b:sim-error", "b:account-error", "b:key-error",
+}
+
+// workersFor: the scheduler shims identify the calling goroutine through runtime.Stack, which holds a
+// global runtime lock; more workers than this only contend on it (measured: part b is fastest with 2
+// workers, part a with 4-6).  Overridable through the named environment variable.
+func workersFor(env string, def int) int {
+	if v, err := strconv.Atoi(os.Getenv(env)); err == nil && v > 0 {
+		return v
+	}
+	if n := engine.DefaultWorkers(); n < def {
+		return n
+	}
+	return def
 }
 
 func execA(r *engine.Run, quick bool, deadline time.Time) {
@@ -222,7 +235,7 @@ func execA(r *engine.Run, quick bool, deadline time.Time) {
 		return
 	}
 	t0 := time.Now()
-	res := searchA(cfgs, deadline, 0)
+	res := searchA(cfgs, deadline, workersFor("VERIF_C20_WORKERS_A", 5))
 	offsets := map[string]bool{}
 	for ci, c := range cfgs {
 		x := res[ci]
@@ -311,17 +324,13 @@ func execB(r *engine.Run, quick bool, deadline time.Time) {
 	scs, bounds := scenariosB(quick)
 	only := os.Getenv("VERIF_C20_ONLY")
 	getEnvB()
-	if pf := os.Getenv("VERIF_C20_PROF"); pf != "" {
-		f, _ := os.Create(pf)
-		_ = pprof.StartCPUProfile(f)
-		defer pprof.StopCPUProfile()
-	}
 	for i, sc := range scs {
 		if only != "" && !strings.Contains(sc.Name, only) {
 			continue
 		}
 		b := bounds[i]
 		b.Deadline = deadline
+		b.Workers = workersFor("VERIF_C20_WORKERS_B", 2)
 		t0 := time.Now()
 		st := gosched.Explore(scenarioB(sc), b)
 		r.States += int(st.Executions)
@@ -391,7 +400,7 @@ func init() {
 			if os.Getenv("VERIF_C20_ONLY") != "" {
 				r.Required = nil
 			}
-			dlA := r.Deadline(8*time.Minute, 30*time.Minute)
+			dlA := r.Deadline(8*time.Minute, 22*time.Minute)
 			dlB := r.Deadline(16*time.Minute, 55*time.Minute)
 			if part != "b" {
 				execA(r, quick, dlA)
